@@ -145,7 +145,16 @@ def fig8(m, w):
     return w
 
 
-SEEDS = dict(fresh=fresh, steady=steady, lagging=lagging, lagging_snap=lagging_snap, deposed=deposed,
+def voted(m, w, cand=N1, voter=N2):
+    """`cand` is candidate, `voter` has granted its vote (answer in flight), nobody else has
+    seen the request yet."""
+    w = m.connect_all(w)
+    w = m.do(w, ('T', cand, m.cfg.tmin + 0.001))
+    w = m.do(w, ('D', cand, voter))
+    return w
+
+
+SEEDS = dict(voted=voted, fresh=fresh, steady=steady, lagging=lagging, lagging_snap=lagging_snap, deposed=deposed,
              deposed_snap=deposed_snap, deposed_twice=deposed_twice, pending=pending, reconnect_pipeline=reconnect_pipeline,
              forwarded=forwarded, fig8=fig8)
 
